@@ -91,6 +91,17 @@ PROPS = {
         ],
         "assumptions": ASSUME_COMMON,
     },
+    "C11": {
+        "level": "exploration",
+        "design_ref": "§6 C11",
+        "level_text": L_EXPL + "; for each (server default x endpoint override x extractor x body length around/far beyond the limit x framing) the response is compared with the limit model and the byte counts logged by the handlers are bounded offline",
+        "level_note": "the limit model is limit = override.unwrap_or(default); 'bytes observed by a handler' are H_BYTES events written by harness handlers after every chunk (streaming / multipart) or once (buffered); HTTP/2 DATA framing is not driven; multipart bodies are sent without epilogue",
+        "technique": "runtime monitoring: boundary-value body lengths x framings against real servers, response oracle + offline conservation check (max bytes seen by handler <= limit) over the event log",
+        "engines": [
+            {"name": "c11-limits"},
+        ],
+        "assumptions": ASSUME_COMMON,
+    },
     "C06": {
         "level": "exploration",
         "design_ref": "§6 C06",
